@@ -296,7 +296,7 @@ PROPS['C22'] = dict(
 )
 
 PROPS['C18'] = dict(
-    units=['k_rtx'], level='proof', design_ref='6/C18',
+    units=['k_rtx', 'k_send'], level='proof', design_ref='6/C18',
     technique='CBMC harness contracts on Session::retrans_callback (per stored record and for the completion call) and Session::handle_resend_request extracted from the clang AST of '
               'runtime/session.cpp, with a ghost coverage counter (first number of the requested range not yet answered) and a ghost send log; the persister\'s range protocol, message '
               'generation and send() are assumed models',
@@ -306,14 +306,45 @@ PROPS['C18'] = dict(
          'the number the session would use next, the next outbound number becomes that NewSeqNo and the state returns to continuous. The request handler ignores a request while a replay is in '
          'progress, rejects Begin > End (End != 0) or Begin = 0, hands a valid range unchanged to the persister, and without a persister gap-fills the whole range. By induction over the '
          'persister\'s callback protocol (ASSUMED: ascending stored records of the range, then completion) every number of the range is answered exactly once, in ascending order. '
-         'NOT decided: that protocol itself (MemoryPersister/FilePersister::get(from,to,..)), PossDupFlag / OrigSendingTime / original MsgSeqNum on the replays (Session::send_process), the bytes of the replayed body.',
+         'A replayed message (one that reaches send_process already carrying MsgSeqNum) keeps that number and goes out with PossDupFlag=Y and OrigSendingTime equal to its original SendingTime (k_send/send_possdup, proved-modular). '
+         'NOT decided: that protocol itself (MemoryPersister/FilePersister::get(from,to,..)), the bytes of the replayed body.',
     note='persister range protocol, generate_sequence_reset, Message::factory and send are ASSUMED models; numbers below 2^31 in the request handler (it computes in int)',
     trusted_base=COMMON_TRUST,
     explanation='The whole-range statement is an induction over the callback sequence; the inductive step is the per-callback contract over the ghost coverage counter.',
 )
 
+PROPS['C16'] = dict(
+    units=['k_send'], level='proof', design_ref='12/C16',
+    technique='CBMC harness contracts on Session::send_process, Session::update_persist_seqnums and Session::recover_seqnums extracted from the clang AST of runtime/session.cpp; the message header '
+              'is a ghost record of the six fields send_process touches, Message::encode / Connection::send / Persister::put and the batch buffer are assumed models that log what they were given',
+    text='Per call of send_process (proved-modular, for every header state, custom number, no_increment / end_of_batch flag, admin or application message, persister present or not, write success '
+         'or failure, and both numbering modes): a message that arrives without MsgSeqNum (or any message under always_seqnum_assign) goes on the wire with the next outbound number, or the custom '
+         'number; a message that already carries one keeps it; SendingTime is now; the next outbound number advances by exactly one for a new message that is not custom-numbered, no_increment or a '
+         'SequenceReset, and is untouched otherwise (also under always_seqnum_assign -- the obligation that failed before fix f3341f0); the expected inbound number is untouched; the control record '
+         'is written exactly once per new message and equals the session numbers after the send, for counted and for uncounted sends (the latter failed before fix 5ef9bf2); a failed write consumes '
+         'no number. update_persist_seqnums writes exactly the session numbers; recover_seqnums continues from the control record. "Consecutive, no two new messages share a number" follows by '
+         'induction over calls from the per-call contract. NOT decided: Session::start / handle_logon number selection, the process() epilogue (++expected, update_persist_seqnums after every inbound '
+         'message), concurrent senders (C25), the pipelined writer thread.',
+    note='header, encode, connection, persister and batch-buffer models are ASSUMED; sequential single call',
+    trusted_base=COMMON_TRUST,
+    explanation='The whole-history statement is an induction over send_process calls whose inductive step is the per-call contract; histories with restarts additionally use recover_seqnums\' contract.',
+)
+PROPS['C17'] = dict(
+    units=['k_send'], level='proof', design_ref='12/C17',
+    technique='CBMC harness contract on Session::send_process extracted from the clang AST of runtime/session.cpp, with a ghost log of Persister::put (number, pointer, whether the pointer still '
+              'addresses live bytes of this message) and of Message::encode (where the wire image of this message lives)',
+    text='Per call (proved-modular, all header states / flags / batch states): exactly the new application messages are stored (administrative messages, retransmissions and failed writes are not), '
+         'under the number that went on the wire, and the stored text is read from the encoded bytes of this message -- also for the last message of a batch, whose pointer is redirected to the '
+         'batch buffer that is cleared after the write (the obligation that failed before fix 80b1e01: the persister stored an empty string). KNOWN FINDING: an application message sent under a '
+         'custom number is stored under the session\'s next outbound number, not the custom number on the wire. NOT decided: that the persister keeps the bytes (C26/C27), the bytes of encode (C01).',
+    note='header, encode, connection, persister and batch-buffer models are ASSUMED; "same bytes" is pointer identity with the encoded image plus liveness of the buffer, not a byte comparison',
+    trusted_base=COMMON_TRUST,
+    explanation='Single-call property; the statement over histories is the per-call contract applied to each send.',
+)
+
 # ---------------------------------------------------------------- native replayers
 import os
+import re
 from vlib import replay as _rp
 
 
@@ -464,7 +495,7 @@ def _replay_k_seq(oid, inputs, trace, wd):
     exe = _rp.build_native(os.path.join(_rp.VERIF, 'replay', 'k_seq.cpp'), os.path.join(wd, 'replay_k_seq'), sanitize=False, timeout=900,
                            extra=['/repo/utests/mockConnection.cpp', '-I/repo/utests', '-L/repo/utests/.libs', '-lutest', '-L/repo/runtime/.libs', '-lfix8',
                                   '-Wl,-rpath,/repo/utests/.libs', '-Wl,-rpath,/repo/runtime/.libs'])
-    which = 'second_gap' if 'resend_pending' in oid else 'logon_gap' if 'logon_with_a_higher' in oid else 'tick' if 'C22' in oid else 'resend' if 'C18' in oid else 'gate'
+    which = 'send_custom' if 'custom_number_is_stored' in oid else 'send' if re.search(r'C1[67]\.|possdup_and_original', oid) else 'second_gap' if 'resend_pending' in oid else 'logon_gap' if 'logon_with_a_higher' in oid else 'tick' if 'C22' in oid else 'resend' if 'C18' in oid else 'gate'
     os.makedirs(os.path.join(wd, 'seqscratch'), exist_ok=True)
     import subprocess
     p = subprocess.run([exe, 'search', which], cwd=os.path.join(wd, 'seqscratch'), stdout=subprocess.PIPE, stderr=subprocess.STDOUT, text=True, timeout=300)
@@ -486,6 +517,7 @@ replayers['k_tok'] = _replay_k_tok
 replayers['k_seq'] = _replay_k_seq
 replayers['k_hb'] = _replay_k_seq
 replayers['k_rtx'] = _replay_k_seq
+replayers['k_send'] = _replay_k_seq
 replayers['k_mper'] = _replay_k_mper
 replayers['k_enc'] = _replay_k_enc
 replayers['k_sched'] = _replay_k_sched
